@@ -626,14 +626,18 @@ struct SlotView
   bool anyReschedAttempt = false;
 };
 
-std::string dumpTrace(const Trace &t, std::int64_t t0, std::size_t maxEvents = 160)
+std::string dumpTrace(const Trace &t, std::int64_t t0, std::size_t maxEvents = 170)
 {
   pbt::Fmt f;
   std::size_t n = t.ev.size();
-  std::size_t from = n > maxEvents ? n - maxEvents : 0;
-  if (from) f << "...(" << from << " earlier events) ";
-  for (std::size_t i = from; i < n; ++i)
+  const std::size_t head = 50;
+  for (std::size_t i = 0; i < n; ++i)
   {
+    if (n > maxEvents && i == head)
+    {
+      f << "...(" << (n - maxEvents) << " events omitted) ";
+      i = n - (maxEvents - head);
+    }
     const Event &e = t.ev[i];
     f << i << ":" << evName(e.type);
     if (e.slot >= 0) f << "#" << e.slot;
@@ -657,7 +661,7 @@ struct Verdict
 
 // Evaluate every oracle on the finished trace. `pfx` = "C08/svc" | "C08/wheel".
 void evaluate(Ctx &x, pbt::Case &c, const std::string &pfx, bool lostChecked, const std::vector<int> &lostSlots,
-              Verdict &v)
+              const std::string &settleInfo, Verdict &v)
 {
   const Plan &plan = x.plan;
   const std::vector<Event> &ev = x.trace.ev;
@@ -865,8 +869,9 @@ void evaluate(Ctx &x, pbt::Case &c, const std::string &pfx, bool lostChecked, co
   {
     pbt::Fmt f;
     f << "timers accepted on a running service (no lifecycle call, no successful cancel) that had not fired 1.5 s after the "
-         "latest deadline and still had not after the same service fired 8 probe timers scheduled later (or a probe stalled for 15 s):";
+         "latest deadline and still had not after the same service fired 8 probe timers scheduled later (or a probe stalled for 30 s):";
     for (int si : lostSlots) f << " #" << si << "(delay " << fmtMs(plan.slots[si].delayNs) << ")";
+    f << " [" << settleInfo << "]";
     c.failTimed(pfx + "/timer-lost", f.str() + "\n trace: " + dumpTrace(x.trace, t0));
     return;
   }
@@ -906,7 +911,7 @@ void runPlan(const Plan &plan, pbt::Case &c)
 {
   const std::string pfx = plan.wheel ? "C08/wheel" : "C08/svc";
   c.describe(renderPlan(plan));
-  pbt::watchdog(240, pfx + "/case-hung");
+  pbt::watchdog(400, pfx + "/case-hung");
 
   auto x = std::make_shared<Ctx>();
   x->plan = plan;
@@ -931,7 +936,7 @@ void runPlan(const Plan &plan, pbt::Case &c)
 
   // ---- settle: while the service is still running, everything that must run is waited for
   bool lostChecked = false;
-  bool stalled = false;   // a liveness probe did not fire within 15 s
+  bool stalled = false;   // a liveness probe did not fire within 30 s
   int probeRounds = 0;
   std::vector<int> lost;
   auto settle = [&]()
@@ -981,9 +986,9 @@ void runPlan(const Plan &plan, pbt::Case &c)
     //     service thread can be kept off the CPU for seconds. The remaining wait is therefore
     //     measured in *progress of the service itself*: 8 rounds of "schedule a 0-delay probe
     //     timer on the service that hosts the missing timer, wait until the probe has fired
-    //     (cap 15 s), pause longer than the wheel's worst cascade lateness". A timer that is
+    //     (cap 30 s), pause longer than the wheel's worst cascade lateness". A timer that is
     //     still missing after the same service has demonstrably fired 8 later-scheduled
-    //     timers is lost. A probe that does not fire within 15 s => the service stalled.
+    //     timers is lost. A probe that does not fire within 30 s => the service stalled.
     if (anyMissing())
     {
       std::int64_t pause = 25 * MS;
@@ -1010,7 +1015,7 @@ void runPlan(const Plan &plan, pbt::Case &c)
           auto f = std::make_shared<std::atomic<bool>>(false);
           if (x->target->probe(*x->slots[si], [f] { f->store(true); })) flags.push_back(f);
         }
-        std::int64_t cap = nowNs() + 15000 * MS;
+        std::int64_t cap = nowNs() + 30000 * MS;
         for (;;)
         {
           bool all = true;
@@ -1094,7 +1099,9 @@ void runPlan(const Plan &plan, pbt::Case &c)
   if (!c.failed())
   {
     std::lock_guard<std::mutex> lk(x->trace.mu);
-    evaluate(*x, c, pfx, lostChecked, lost, v);
+    evaluate(*x, c, pfx, lostChecked, lost,
+             (pbt::Fmt() << "probe rounds completed: " << probeRounds << (stalled ? ", last probe did NOT fire within 30 s" : ", every probe fired")).str(),
+             v);
     if (!c.failed())
     {
       // A scheduling call that was parked at its clock read - i.e. after iora's lock-free
@@ -1149,7 +1156,7 @@ void runPlan(const Plan &plan, pbt::Case &c)
     if (nStalled) c.label("schedule call parked inside iora");
     if (restarted) c.label("restart (reset+start)");
     if (probeRounds) c.label("settle needed liveness probes (slow machine)");
-    if (stalled) c.label("liveness probe stalled 15 s");
+    if (stalled) c.label("liveness probe stalled 30 s");
     if (plan.poolSize) c.label("pool");
     bool earlyLife = false, drainFail = false, drainOk = false;
     for (const Event &e : x->trace.ev)
